@@ -303,6 +303,30 @@ def wide_svar_case(rng, w):
     return doc, toks
 
 
+def narrow_field_probe(ctx, exe):
+    """The tag records keep name lengths / attribute offsets in 8- and 16-bit fields. Names of 256 units and
+    more are derivable from the documented grammar; the documented expansion of `{var:<name>}` with the key
+    present is the value. Probed on the real code with fixed witnesses (recorded finding when it fails)."""
+    lines, exp = [], []
+    for n in (255, 256, 300):
+        key = [97 + (i % 26) for i in range(n)]
+        doc = "o1,k%s,s118" % ".".join(str(x) for x in key)                       # {"<key>": "v"}
+        tpl = [ord(c) for c in "{var:"] + key + [125]
+        lines.append("tplrender 1 %s %s" % (doc, core.show_units(tpl))); exp.append("118")
+        doc2 = "o1,k%s,a1,s118" % ".".join(str(x) for x in key)                   # {"<key>": ["v"]}
+        tpl2 = [ord(c) for c in '<loop set="'] + key + [ord(c) for c in '" value="x">{var:x}</loop>']
+        lines.append("tplrender 1 %s %s" % (doc2, core.show_units(tpl2))); exp.append("118")
+    impl, faults = core.run_lines(exe, lines)
+    for i, kind, err in faults:
+        ctx.fail("fault:" + kind, "fault rendering a long name: " + lines[i][:200], {"line": lines[i], "stderr": err})
+    for l, a, e in zip(lines, impl, exp):
+        got = a.split(" ")[-1] if a and not a.startswith("FAULT") else a
+        if got != e and not a.startswith("FAULT"):
+            ctx.fail("name-of-256-units-or-more", "a name of >= 256 units is not resolved although the key exists (8/16-bit tag fields): %s... -> %s" % (l[:80], a[-60:]),
+                     {"line": l, "impl": a, "expected_text_units": e})
+    ctx.count("narrow-field-probe", len(lines), len(lines))
+
+
 def run(ctx):
     ctx.gen_constants(["Expr", "Tmpl", "Escape"])
     mods = ["Qentem.Props.C02", "Qentem.Props.C01", "Qentem.Props.C04", "Qentem.Props.C03"]
@@ -311,6 +335,7 @@ def run(ctx):
     exe = ctx.build_harness("template_harness.cpp")
     if not (drv and exe):
         return
+    narrow_field_probe(ctx, exe)
     g = Gen(ctx.rng)
     N = 30000 if not ctx.thorough else 300000
     spec_lines, widths = [], []
